@@ -10,35 +10,51 @@ HERE = os.path.dirname(os.path.dirname(os.path.abspath(__file__)))
 ALLOWED_AXIOMS = {"propext", "Classical.choice", "Quot.sound"}
 
 
+_RUNS = {}
+
+
+def _run(path, secs):
+    if path not in _RUNS:
+        t0 = time.time()
+        try:
+            p = subprocess.run(["lean", path], capture_output=True, text=True, timeout=secs, cwd=os.path.dirname(path))
+            _RUNS[path] = (p.returncode, p.stdout + p.stderr, time.time() - t0)
+        except FileNotFoundError:
+            _RUNS[path] = ("missing", "", 0.0)
+        except subprocess.TimeoutExpired:
+            _RUNS[path] = ("timeout", "", secs)
+    return _RUNS[path]
+
+
 def check(rep, relpath, theorem, secs=900):
+    """`theorem` may be one name or a list of names of the same file (lean runs once per file and process)"""
     path = os.path.join(HERE, relpath)
-    t0 = time.time()
     src = open(path).read()
     if re.search(r"\bsorry\b", src) or re.search(r"\badmit\b", src):
         rep.crashes.append("%s contains sorry/admit" % relpath)
         return
-    try:
-        p = subprocess.run(["lean", path], capture_output=True, text=True, timeout=secs, cwd=os.path.dirname(path))
-    except FileNotFoundError:
-        rep.undecide("lean is not installed: lemma %s not re-checked" % theorem)
+    rc, out, took = _run(path, secs)
+    names = [theorem] if isinstance(theorem, str) else list(theorem)
+    if rc == "missing":
+        rep.undecide("lean is not installed: lemmas %s not re-checked" % names)
         return
-    except subprocess.TimeoutExpired:
+    if rc == "timeout":
         rep.undecide("lean timed out on %s" % relpath)
         return
-    out = p.stdout + p.stderr
-    ok = p.returncode == 0 and "error" not in out
-    m = re.search(r"'%s' depends on axioms: \[([^\]]*)\]" % re.escape(theorem), out)
-    axioms = set(a.strip() for a in m.group(1).split(",")) if m else None
-    if not ok:
+    if rc != 0 or re.search(r"(^|\n)[^\n]*: error", out):
         rep.crashes.append("lean rejected %s: %s" % (relpath, out[-600:]))
-    elif axioms is None:
-        rep.crashes.append("lean did not report the axioms of %s" % theorem)
-    elif not axioms <= ALLOWED_AXIOMS:
-        rep.crashes.append("%s depends on non-standard axioms %s" % (theorem, sorted(axioms - ALLOWED_AXIOMS)))
-    else:
-        rep.coverage.setdefault("lean_lemmas", []).append(dict(file=relpath, theorem=theorem, axioms=sorted(axioms),
-                                                               checker="lean 4 + Mathlib (%s)" % _lean_version(), secs=round(time.time() - t0, 1)))
-        rep.evaluations += 1
+        return
+    for th in names:
+        m = re.search(r"'%s' depends on axioms: \[([^\]]*)\]" % re.escape(th), out)
+        axioms = set(a.strip() for a in m.group(1).split(",")) if m else None
+        if axioms is None:
+            rep.crashes.append("lean did not report the axioms of %s" % th)
+        elif not axioms <= ALLOWED_AXIOMS:
+            rep.crashes.append("%s depends on non-standard axioms %s" % (th, sorted(axioms - ALLOWED_AXIOMS)))
+        else:
+            rep.coverage.setdefault("lean_lemmas", []).append(dict(file=relpath, theorem=th, axioms=sorted(axioms),
+                                                                   checker="lean 4 + Mathlib (%s)" % _lean_version(), secs=round(took, 1)))
+            rep.evaluations += 1
 
 
 def _lean_version():
